@@ -217,6 +217,9 @@ let run (t : string list) : string =
   | ["parse_disp"; h] ->
       (match Command.parse_command_cur (bytes_of_hex h) with
        | Command.POk (Command.CStore (_, _, json)) -> "S " ^ hs json   (* JSON validity is decided in the comparison *)
+       | Command.POk (Command.CBatch cs as c) ->
+           (* a STORE inside the batch: the JSON validity of its payload is decided in the comparison *)
+           (if Command.dispatch_handled (Command.kind_of c) then "BRESP " else "BPANIC ") ^ command c
        | Command.POk c -> if Command.dispatch_handled (Command.kind_of c) then "RESP" else "PANIC"
        | Command.PErr -> "NOPARSE"
        | Command.PPanic _ -> "PANIC"
